@@ -32,7 +32,7 @@ AIR = {'AA1': ('US', 10.0, 10.0), 'AA2': ('US', 10.0, 20.0), 'AA3': ('CA', 30.0,
 CONT = {'US': 'NA', 'CA': 'NA', 'FR': 'EU'}
 BOXES = {'B1': (5, 15, 5, 25), 'B2': (25, 35, 5, 15), 'B3': (-60, 60, 0, 60)}
 FLIGHTS = [
-    ('AA1', 'AA2', 500, 100, 'J', '738', list(range(14)), 480),
+    ('AA1', 'AA2', 500, 100, 'J', '738', [d for d in range(14) if d not in (5, 7, 11)], 480),
     ('AA2', 'AA1', 500, 150, 'J', '320', [0, 2, 4, 6, 8, 10, 12], 570),
     ('AA1', 'AA3', 2000, 200, 'F', '738', [0, 3, 6, 9, 12], 1439),
     ('AA3', 'AA4', 6000, 300, 'J', '77W', [1, 2], 0),
@@ -319,7 +319,7 @@ def run(ctx: Ctx):
         're-execution cases (0-2 prior SQL builds, 2-3 runs); random sessions of 24 operations (open a result / fetch one row of any open result / count) over 6 queries on one Database object; plus 5 filter shapes and the sampling band on the shipped test database; non-trivial = at least one populated filter part or non-default query parameter'
     )
     ctx.assumptions += [
-        'generated database: 4 airports / 3 countries / 2 continents / 5 flights / 29 instances over 14 days, unique departure instants, schedule ids shuffled',
+        'generated database: 4 airports / 3 countries / 2 continents / 5 flights / 26 instances over 14 days (three days without any departure), unique departure instants, schedule ids shuffled',
         'bounding-box edges are kept 0.001 degrees away from airport coordinates (32-bit R-tree)',
         'empty lists as filter values are not generated; sampling is only checked for subset/order, p = 1, and a 6-sigma size band on the shipped database',
     ]
